@@ -160,7 +160,7 @@ def make_interface(prop):
                 "parent_root_accuracy": parent_acc,
                 "parent_root_errors": [x["err"] for x in pr],
                 "approximate_factor_involved": involved,
-                "culprits_are_direct_results_of_queries_inexact_on_fresh_copy_too": "yes" if (culprits and all(c.get("direct_inexact") for c in culprits)) else "no",
+                "culprits_written_by_queries_inexact_on_fresh_copy_too": "yes" if (culprits and all(c.get("direct_inexact") for c in culprits)) else "no",
                 "culprit_names": sorted({c["name"].split("(")[0] for c in culprits}),
                 "culprit_writers": sorted({c["writer"] for c in culprits}),
                 "culprit_entry_errors_full_and_projected": [c["err"] for c in culprits],
@@ -214,8 +214,8 @@ def make_interface(prop):
             "samples": total["samples"],
             "steps_executed": total["steps"],
             "fault_kinds": faults,
-            "reach_probes": {k: v for k, v in sorted(st.items()) if k.startswith(("path_", "derive_", "q_", "cls_", "layout_", "util_"))},
-            "counters": {k: v for k, v in sorted(st.items()) if not k.startswith(("path_", "derive_", "q_", "cls_", "layout_", "util_", "fault_"))},
+            "reach_probes": {k: v for k, v in sorted(st.items()) if k.startswith(("path_", "derive_", "q_", "cls_", "layout_", "util_", "reach_"))},
+            "counters": {k: v for k, v in sorted(st.items()) if not k.startswith(("path_", "derive_", "q_", "cls_", "layout_", "util_", "fault_", "reach_"))},
             "generate_vs_replay_digest_selfchecks": total.get("selfchecked", 0),
             "components": {
                 "real": ["all of linear_operator (operators, functions, utils, settings)", "all torch kernels"],
